@@ -14,7 +14,7 @@ ANCHORS = ["transform.apply_along_axis", "transform._get_func", "transform._deal
 FLOORS = {"quick": {"evaluations": 3000, "distinct": 1200, "outcome:tuple-axis": 300, "outcome:single-element-result": 200},
           "thorough": {"evaluations": 50000, "distinct": 3000}}
 FUNCS = ['sum', 'prod', 'mean', 'var', 'std', 'min', 'max', 'ptp', 'all', 'any', 'median']
-NANPAT = ['none', 'sparse', 'dense', 'slice', 'all']
+NANPAT = ['none', 'sparse', 'dense', 'slice', 'all', 'inf']
 
 
 def all_shapes():
@@ -71,6 +71,14 @@ def gen_case(rng, shape=None):
             v[np.array([rng.random() < 0.1 for _ in range(v.size)]).reshape(v.shape)] = np.nan
         elif pat == 'all':
             v[...] = np.nan
+        elif pat == 'inf':
+            # infinities of both signs (and a few NaNs): NumPy's answer is still the reference
+            for q_ in range(v.size):
+                r_ = rng.random()
+                if r_ < 0.25:
+                    v.reshape(-1)[q_] = np.inf if r_ < 0.125 else -np.inf
+                elif r_ < 0.3:
+                    v.reshape(-1)[q_] = np.nan
     f = rng.choice(FUNCS + ['percentile', 'median'])
     if f == 'percentile' and dt == 'b':
         f = 'median'
